@@ -80,6 +80,43 @@ type RangeIter struct {
 	pos  int
 	s    StrV
 	isSt bool
+	mc   mapCursor
+}
+
+// mapCursor is the one iteration order both map iterators (native range, reflect.MapIter) use:
+// the entries present when the iteration started in insertion order, but an entry created
+// during the iteration is produced next (the specification allows it to be produced or skipped;
+// producing it at once is the choice that exposes iterators which count or snapshot).
+type mapCursor struct {
+	started bool
+	n0      int // entries when the iteration started
+	pos     int // next original entry
+	extra   int // next entry created during the iteration
+}
+
+// next returns the next live entry, or nil.
+func (c *mapCursor) next(mo *MapObj) *MapEntry {
+	if mo == nil {
+		return nil
+	}
+	if !c.started {
+		c.started, c.n0, c.extra = true, len(mo.entries), len(mo.entries)
+	}
+	for c.extra < len(mo.entries) {
+		e := mo.entries[c.extra]
+		c.extra++
+		if !e.deleted {
+			return e
+		}
+	}
+	for c.pos < c.n0 {
+		e := mo.entries[c.pos]
+		c.pos++
+		if !e.deleted {
+			return e
+		}
+	}
+	return nil
 }
 
 // CoHandle is a reference-semantics generator instance (source world only).
@@ -101,7 +138,9 @@ type CoHandle struct {
 type ReflectVal struct{ v Value; t types.Type }
 type ReflectMapIter struct {
 	m   *MapObj
-	pos int // index of current entry; -1 before first
+	pos int // unused (kept for the exhausted / not-started distinction): -1 before first
+	mc  mapCursor
+	cur *MapEntry
 }
 
 // PanicV is a run-time panic (class) or an explicit panic value.
